@@ -154,6 +154,13 @@ def job(spec):
         base = str(d / f"o_{spec['id']}_{ci}")
         for f in d.glob(f"o_{spec['id']}_{ci}*"):
             f.unlink()
+        if ci % 3 == 1 and op not in ("extract_chans", "extract_bands"):
+            # the output path already holds an older, LONGER result (a re-run under the same name): it is replaced, not patched
+            stale = Path(base + (".tim" if op == "to_tim" else ".fil"))
+            stale.write_bytes(Path(names[0]).read_bytes() + b"\xa5" * 8192)
+            rec_stale = True
+        else:
+            rec_stale = False
         _log = []
         _content.clear()
         kw = {"gulp": gulp, "start": start, "nsamps": nsamps, "quiet": True}
@@ -163,7 +170,7 @@ def job(spec):
                 kw.pop("start")
         outs = []
         rec = {"op": op, "gulp": gulp, "start": start, "nsamps": nsamps, "params": {k: v for k, v in call.items()
-               if k not in ("op", "gulp", "start", "nsamps")}, "del": [0] * c, "pre": pre}
+               if k not in ("op", "gulp", "start", "nsamps")}, "del": [0] * c, "pre": pre, "stale_output": rec_stale}
         try:
             if op == "invert":
                 outs = [fil.invert_freq(outfile_name=base + ".fil", **kw)]
